@@ -223,10 +223,12 @@ def variants(world, tier="quick", only=None):
             v = RuleVariant(world, Kop, k, target, tier=tier)
             if Kop in WIDTH_FAMILY_OPS:
                 v.bounded = "width"
-            if tier == "quick" and Kop in (S.AND, S.OR):
+            if Kop in (S.AND, S.OR) and (tier == "quick" or k >= 3):
+                # nested conjunctions / disjunctions of the arguments are enumerated up to this arity (the flattening loop);
+                # three arguments that may each be a three-fold connective do not finish within any reasonable budget
                 v.max_arity = 2
             if Kop in (S.PLUS, S.TIMES):
-                v.loop_bound = 3 if tier == "quick" else 5
+                v.loop_bound = 3 if (tier == "quick" or k >= 3) else 4
                 v.max_arity = 2
             out.append(v)
     if not only or "walk_not" in only:
